@@ -57,10 +57,16 @@ func NewHTML(htmlContent utils.ContentInput, baseUrl string, urlFetcher utils.Ur
 	}
 
 	var out HTML
-	// html.Parse wraps the <html> tag
-	out.Root = (*utils.HTMLNode)(root.FirstChild)
-	if out.Root.Type == html.DoctypeNode {
-		out.Root = (*utils.HTMLNode)(out.Root.NextSibling)
+	// html.Parse wraps the <html> tag, which is the only element child
+	// of the document node: doctype and comments may come before it
+	for child := root.FirstChild; child != nil; child = child.NextSibling {
+		if child.Type == html.ElementNode {
+			out.Root = (*utils.HTMLNode)(child)
+			break
+		}
+	}
+	if out.Root == nil {
+		return nil, fmt.Errorf("invalid html input : no root element")
 	}
 	out.Root.Parent = nil
 	out.BaseUrl = utils.FindBaseUrl(root, result.BaseUrl)
